@@ -19,8 +19,10 @@ enum Kind {
     KeyedPair,
     NumberKeyedPair,
     NestedList,
+    /// the unit value as an item (one implementation marks unused table slots with it)
+    Unit,
 }
-const KINDS: [Kind; 6] = [Kind::Number, Kind::Text, Kind::Symbol, Kind::KeyedPair, Kind::NumberKeyedPair, Kind::NestedList];
+const KINDS: [Kind; 7] = [Kind::Number, Kind::Text, Kind::Symbol, Kind::KeyedPair, Kind::NumberKeyedPair, Kind::NestedList, Kind::Unit];
 
 fn item_of(kind: Kind, pos: usize, key: u64) -> V {
     match kind {
@@ -30,6 +32,7 @@ fn item_of(kind: Kind, pos: usize, key: u64) -> V {
         Kind::KeyedPair => pair(V::Sym(key), V::Int(1000 + pos as i32)),
         Kind::NumberKeyedPair => pair(V::Int(pos as i32), V::Int(2000 + pos as i32)),
         Kind::NestedList => V::List(vec![V::Int(pos as i32), pair(V::Sym(key), V::Int(3000 + pos as i32))]),
+        Kind::Unit => V::Unit,
     }
 }
 
@@ -158,6 +161,25 @@ fn judge_instructions(imp: Impl, container: &V, absent: &[u64], ctx: &mut CaseCt
             probes.push((V::Sym(*s), V::Unit));
         }
     }
+    // length through the instruction (`.|`), and the container cast to a list: the flat sequence of its items
+    for (ins, right, want) in [(Instruction::AccessLengthInternal, None, V::Int(n)), (Instruction::ApplyType, Some(V::List(vec![])), V::List(items.clone()))] {
+        ctx.sub_evals += 1;
+        let out = match imp {
+            Impl::Simple => call(&mut new_simple(), ins, container, right.as_ref()),
+            Impl::Basic => call(&mut new_basic(), ins, container, right.as_ref()),
+        };
+        if let Ok(o) = out {
+            let what = format!("{:?} of {} on {}", ins, container, imp.name());
+            match (&o.panicked, &o.result) {
+                (Some(loc), _) => ctx.fail(format!("panic@{}", loc), what),
+                (_, Ok(v)) if same(v, &want) => {}
+                (_, other) => ctx.fail(
+                    format!("instruction-{}-wrong:{}", if ins == Instruction::ApplyType { "cast-to-list" } else { "length" }, if matches!(container, V::Concat(..)) { "concatenation" } else { "list" }),
+                    format!("{} gave {:?} instead of {}", what, other, want),
+                ),
+            }
+        }
+    }
     for (key, want) in probes {
         for ins in [Instruction::Access, Instruction::Apply] {
             if ins == Instruction::Apply && matches!(container, V::Concat(..)) {
@@ -272,9 +294,9 @@ impl Check for C16Check {
         "C16"
     }
     fn rule(&self) -> String {
-        "Phase small-lists: every list of length 0..4 over six item kinds (number, text, symbol, pair keyed by a symbol, pair keyed by a number, nested list holding a keyed pair), distinct keys; phase random: lists of up to 64 items with adversarial raw 64-bit symbol keys (all equal modulo the length, congruent to length-1, minimum and maximum u64, ascending, descending, interleaved extremes, random), and concatenations of two or three such lists; phase key-paths: look-ups by a path of two symbols (`container <~ :outer.inner`, and the two accesses one after the other) where the outer key's value is a list, a concatenation of lists (left- and right-nested), a concatenation of pairs or a list mixing keyed and unkeyed items, the inner key first / in the middle / last / absent; phase size-sweep: keyed lists (all keyed, every third item unkeyed, split into a concatenation of two lists) of every size in 8..300 (thorough ..1000) around powers of two and round numbers under the seven key patterns. \
+        "Phase small-lists: every list of length 0..4 over seven item kinds (number, text, symbol, pair keyed by a symbol, pair keyed by a number, nested list holding a keyed pair, the unit value), distinct keys; phase random: lists of up to 64 items with adversarial raw 64-bit symbol keys (all equal modulo the length, congruent to length-1, minimum and maximum u64, ascending, descending, interleaved extremes, random), and concatenations of two or three such lists; phase key-paths: look-ups by a path of two symbols (`container <~ :outer.inner`, and the two accesses one after the other) where the outer key's value is a list, a concatenation of lists (left- and right-nested), a concatenation of pairs or a list mixing keyed and unkeyed items, the inner key first / in the middle / last / absent; phase size-sweep: keyed lists (all keyed, every third item unkeyed, split into a concatenation of two lists) of every size in 8..300 (thorough ..1000) around powers of two and round numbers under the seven key patterns. \
          Each container is built through the data API on both data implementations, into a fresh object and into one that already holds 1..7 unrelated values. Oracle (a plain Vec model): get_list_len = n; get_list_item(k) reads back item k for 0<=k<n and reports no item (never an error) past the end; get_list_item_iter yields the items in insertion order; get_list_item_with_symbol returns the value of the pair keyed by each present symbol and 'absent' (never an error) for absent symbols including ones colliding modulo the length; \
-         the Access and Apply instructions with every index in {-1, 0, n-1, n, n+3} and every present / absent symbol give the same answers (unit for absent), also on concatenations. \
+         the Access and Apply instructions with every index in {-1, 0, n-1, n, n+3} and every present / absent symbol give the same answers (unit for absent), also on concatenations; the length instruction `.|` gives n and a cast to a list gives the flat sequence of the items. \
          Non-trivial = at least two symbol keys plus at least one unkeyed item; distinct = distinct containers."
             .to_string()
     }
@@ -284,7 +306,7 @@ impl Check for C16Check {
     fn phases(&self, tier: Tier) -> Vec<Phase> {
         let sizes = crate::model::pipeline::SIZE_SWEEP.iter().filter(|n| **n <= tier.pick(300, 1000)).count() as u64;
         vec![
-            Phase::exhaustive("small-lists", 1 + 6 + 36 + 216 + 1296).with_chunk(32),
+            Phase::exhaustive("small-lists", 1 + 7 + 49 + 343 + 2401).with_chunk(32),
             Phase::random("random-lists", tier.pick(80_000, 1_000_000), 160).with_min_tape(16).with_chunk(256),
             Phase::exhaustive("size-sweep", sizes * 7 * 3).with_chunk(1).with_deadline_ms(60_000),
             Phase::exhaustive("key-paths", 2 * 3 * 5 * 3 * 2).with_chunk(4),
@@ -298,7 +320,7 @@ impl Check for C16Check {
                 let mut block = 1u64;
                 while idx >= block {
                     idx -= block;
-                    block *= 6;
+                    block *= 7;
                     len += 1;
                 }
                 let mut items = vec![];
@@ -306,8 +328,8 @@ impl Check for C16Check {
                 let mut code = idx;
                 let mut kinds = vec![Kind::Number; len];
                 for p in (0..len).rev() {
-                    kinds[p] = KINDS[(code % 6) as usize];
-                    code /= 6;
+                    kinds[p] = KINDS[(code % 7) as usize];
+                    code /= 7;
                 }
                 for (p, k) in kinds.iter().enumerate() {
                     items.push(item_of(*k, p, keys[p]));
@@ -423,7 +445,7 @@ impl Check for C16Check {
                     };
                     let mut items = vec![];
                     for p in 0..n {
-                        let kind = if t.chance(150) { Kind::KeyedPair } else { KINDS[t.choose(6)] };
+                        let kind = if t.chance(150) { Kind::KeyedPair } else { KINDS[t.choose(7)] };
                         items.push(item_of(kind, p + lists.len() * 100, total_keys[next_key % total_keys.len()]));
                         next_key += 1;
                     }
